@@ -21,7 +21,29 @@ LEAN = os.path.join(os.path.dirname(os.path.dirname(HERE)), 'lean')
 AREAS = sorted(f[:-3] for f in os.listdir(HERE) if f.endswith('.py') and f not in ('run.py', '__init__.py'))
 
 
+BASELINE = os.path.join(HERE, 'baseline')
+
+
+def baseline_path(area):
+    return os.path.join(BASELINE, area + '.lean')
+
+
+def restore_baseline(areas):
+    """put the committed last-good translation (made from the pinned /repo HEAD) back in place of the generated
+    file of each area.  Used when the current source cannot be translated, or its translation no longer carries
+    the proofs: the model is then the hand-kept baseline, tied to the code by the correspondence run alone."""
+    done = []
+    for a in areas:
+        mod = importlib.import_module(a)
+        if os.path.exists(baseline_path(a)):
+            pylean.write_if_changed(os.path.join(LEAN, mod.OUT), open(baseline_path(a), encoding='utf-8').read())
+            done.append(a)
+    return done
+
+
 def main(argv):
+    save = '--save-baseline' in argv
+    argv = [a for a in argv if not a.startswith('--')]
     areas = argv or AREAS
     status = {}
     for a in areas:
@@ -29,12 +51,18 @@ def main(argv):
         try:
             text = mod.generate()
             status[a] = 'ok'
+            if save:
+                os.makedirs(BASELINE, exist_ok=True)
+                pylean.write_if_changed(baseline_path(a), text)
         except Exception as e:  # Untranslatable or an unexpected source shape
             reason = f'{type(e).__name__}: {e}'
             status[a] = reason
-            text = (pylean.header('TRANSLATION FAILED', [a]) +
-                    f'\n-- {traceback.format_exc().splitlines()[-1]}\n'
-                    f'example : {pylean.lean_str("untranslatable: " + reason[:300])} = "" := by decide\n')
+            if os.path.exists(baseline_path(a)):
+                text = open(baseline_path(a), encoding='utf-8').read()     # keep the last good model (see core.py)
+            else:
+                text = (pylean.header('TRANSLATION FAILED', [a]) +
+                        f'\n-- {traceback.format_exc().splitlines()[-1]}\n'
+                        f'example : {pylean.lean_str("untranslatable: " + reason[:300])} = "" := by decide\n')
         pylean.write_if_changed(os.path.join(LEAN, mod.OUT), text)
     spath = os.path.join(LEAN, 'DeepModel/Extracted/status.json')
     old = {}
